@@ -13,6 +13,13 @@ SUITES = {
     ),
 }
 
+SUITES["breaker"] = dict(
+    test="TestBreaker", coq_module="Cases.BreakerCase", case_type="brk_case", eval="eval_brk_case",
+    cols=["diff", "mon_block", "mon_trials", "mon_trip", "mon_close", "mon_reopen", "mon_recover",
+          "cls_lockout", "nt_c07", "nt_c08"],
+    batches={"quick": 4, "thorough": 16}, timeout={"quick": 300, "thorough": 3000},
+)
+
 PROPS = {
     "C09": dict(
         props_file="Props/C09.v",
@@ -35,6 +42,39 @@ PROPS = {
                      "sync.Mutex / sync.Map give mutual exclusion and atomic LoadOrStore (Go runtime, modelled not verified)"],
     ),
 }
+
+PROPS["C07"] = dict(
+    props_file="Props/C07.v",
+    suites=[dict(suite="breaker", corr=["diff"], monitors=["mon_block", "mon_trials", "mon_trip", "mon_close", "mon_reopen"],
+                 classifiers={}, nontrivial="nt_c07")],
+    rule="breaker histories under virtual time: overlapping Execute calls (begin/end separately), outcomes ok/err/panic, "
+         "gaps on interval/timeout boundaries +-1ns, thresholds and max_requests in 1..3; non-trivial = the history reaches OPEN; "
+         "distinct = by hash of the full case term",
+    level_text="Theorems over the breaker model for all configurations and all histories of overlapping requests: reachable-state "
+               "invariant, trip after failure_threshold failures with gaps <= interval, block while open until the deadline, "
+               "bounded trials per half-open episode, close only at the success_threshold-th success, re-open on any trial failure. "
+               "Tied to circuitbreaker.go by running the same histories on the real breaker under virtual time (return value "
+               "class, whether the function ran, State() after every op) and evaluating model and trace monitors in the Coq kernel.",
+    level_note="Trusted: Coq kernel, harness, hand model of circuitbreaker.go. Requests overlap at the granularity of "
+               "admission/completion; interleavings inside beforeRequest/Execute critical sections are a separate step-level claim.",
+    trusted_base=["model Model/Breaker.v of internal/circuitbreaker/circuitbreaker.go (hand-written; tied by the breaker suite)"],
+    assumptions=["virtual time is non-decreasing", "uint32 counter overflow out of scope", "sync.RWMutex gives mutual exclusion"],
+)
+PROPS["C08"] = dict(
+    props_file="Props/C08.v",
+    suites=[dict(suite="breaker", corr=["diff"], monitors=["mon_recover"],
+                 classifiers={"lockout-max-lt-success": "cls_lockout"}, nontrivial="nt_c08")],
+    rule="every breaker history is followed by the recovery script (end in-flight requests, wait > timeout, success_threshold "
+         "successful requests); non-trivial = the breaker is not CLOSED when the script starts; distinct = by hash of the case term",
+    level_text="Theorem: from every state reachable by any history of overlapping requests, after in-flight requests end, waiting "
+               "> timeout and success_threshold successes close the breaker with all of them admitted, whenever "
+               "success_threshold <= max_requests; the converse configuration is proved to lock out for ever (refutation with witness). "
+               "Tie: the same recovery script is run on the real breaker after every generated history.",
+    level_note="Trusted: Coq kernel, harness, hand model of circuitbreaker.go. Deadlock-freedom of state-change notifications is "
+               "decided at balancer level (lbseq suite), not here.",
+    trusted_base=["model Model/Breaker.v of internal/circuitbreaker/circuitbreaker.go (hand-written; tied by the breaker suite)"],
+    assumptions=["virtual time is non-decreasing", "in-flight requests eventually end"],
+)
 
 # properties not claimed, each with a one-line reason (kept current as checks are added)
 _ALL = ["C%02d" % i for i in range(1, 21)]
